@@ -257,6 +257,26 @@ def gen_topology_doc(rng):
             for k in ('gain_target', 'delta_p', 'tilt_target', 'out_voa'):
                 if isinstance(op.get(k), (int, float)) and rng.random() < 0.5:
                     op[k] = noisy(rng, op[k], k)
+    # exact zeros: a value of 0 is a value (0 dBm target, no connector loss, flat tilt ...), not a missing leaf
+    for e in tj['elements']:
+        p = e.get('params', {})
+        for k in ('att_in', 'con_in', 'con_out', 'loss'):
+            if isinstance(p.get(k), (int, float)) and rng.random() < 0.12:
+                p[k] = rng.choice([0, 0.0])
+        for k in ('per_degree_pch_out_db',):
+            if k in p:
+                p[k] = {d: (rng.choice([0, 0.0]) if rng.random() < 0.3 else v) for d, v in p[k].items()}
+        if 'target_pch_out_db' in p and rng.random() < 0.2:
+            p['target_pch_out_db'] = 0
+        op = e.get('operational')
+        if isinstance(op, dict):
+            for k in ('delta_p', 'tilt_target', 'out_voa'):
+                if isinstance(op.get(k), (int, float)) and rng.random() < 0.15:
+                    op[k] = rng.choice([0, 0.0])
+        for a in e.get('amplifiers', []) or []:
+            for k in ('delta_p', 'tilt_target', 'out_voa'):
+                if isinstance(a.get('operational', {}).get(k), (int, float)) and rng.random() < 0.2:
+                    a['operational'][k] = 0
     return tj, ename, flavour
 
 
@@ -280,6 +300,23 @@ def gen_equipment_doc(rng):
     for k in ('padding', 'EOL', 'con_in', 'con_out', 'max_length'):
         if isinstance(sp.get(k), (int, float)) and rng.random() < 0.3:
             sp[k] = noisy(rng, sp[k], k)
+    # exact zeros where zero is a legal value
+    for k in ('EOL', 'con_in', 'con_out', 'target_extended_gain'):
+        if k in sp and rng.random() < 0.2:
+            sp[k] = 0
+    si = ej['SI'][0]
+    for k in ('power_dbm', 'sys_margins', 'tx_power_dbm', 'roll_off'):
+        if isinstance(si.get(k), (int, float)) and rng.random() < 0.2:
+            si[k] = 0
+    for r in ej['Roadm']:
+        for k in ('target_pch_out_db', 'pmd', 'pdl'):
+            if isinstance(r.get(k), (int, float)) and rng.random() < 0.15:
+                r[k] = 0
+    for t in ej['Transceiver']:
+        for m in t.get('mode', []):
+            for k in ('equalization_offset_db', 'roll_off', 'cost'):
+                if rng.random() < 0.1 and (k in m or k == 'equalization_offset_db'):
+                    m[k] = 0
     return ej, name
 
 
@@ -319,7 +356,9 @@ def gen_spectrum_doc(rng):
         if rng.random() < 0.5:
             p['delta_pdb'] = rng.choice([0, 1.0, -1.5])
         if rng.random() < 0.5:
-            p['tx_power_dbm'] = noisy(rng, rng.choice([0, -2.0, 1.5]), 'tx_power_dbm')
+            p['tx_power_dbm'] = rng.choice([0, noisy(rng, rng.choice([0, -2.0, 1.5]), 'tx_power_dbm')])
+        if rng.random() < 0.15:
+            p['roll_off'] = 0
         if rng.random() < 0.5:
             p['label'] = f'part{i}'
         parts.append(p)
